@@ -1,3 +1,3 @@
 import Driver.Loop
-/- stub: no executable model for C09 yet -/
-def main : IO UInt32 := CelerVerif.runDriver (fun (s : Unit) _ => (s, "bad-op")) ()
+import CelerVerif.Model.BZoneDriver
+def main : IO UInt32 := CelerVerif.runDriver CelerVerif.BZone.driverStep ()
